@@ -832,7 +832,7 @@ func ffSpecEncDatum(w *curW, e ffEntry, datum string) bool {
 	if len(p) != 2 {
 		return false
 	}
-	v, ok := valParse(p[1])
+	v, ok := valParsePure(p[1]) // the reference encoder's input: not built with the type under test
 	if !ok {
 		return false
 	}
